@@ -256,6 +256,8 @@ def single_defs(fn: ast.AST) -> Dict[str, ast.expr]:
             banned.add(n.target.id)
         if isinstance(n, ast.Name) and isinstance(n.ctx, (ast.Store, ast.Del)):
             cnt[n.id] = cnt.get(n.id, 0) + 1
+        if isinstance(n, ast.NamedExpr) and isinstance(n.target, ast.Name):
+            rhs[n.target.id] = n.value          # (name := value)
         if isinstance(n, ast.Assign) and len(n.targets) == 1:
             t, v = n.targets[0], n.value
             if isinstance(t, ast.Name):
